@@ -213,11 +213,45 @@ def boundary_streams(masked):
         for n in (124, 125):
             out.append((f"ctl{op}-{n}", F(op, (b"\x03\xe8" + b"p" * (n - 2)) if op == 8 else b"p" * n)))
         out.append((f"ctl{op}-126", F(op, b"\x03\xe8" + b"p" * 124)))
+    # text messages at every UTF-8 boundary, fragmented with zero-length frames first / in the middle / last (the
+    # verdict at FIN comes from the LAST validator call, which for an empty final fragment sees no octet)
+    texts = [("ascii", b"a"), ("2oct", "\u00e9".encode()), ("3oct", "\u20ac".encode()), ("4oct", "\U0001f600".encode()),
+             ("mixed", "a\u00e9\u20ac\U0001f600z".encode()),
+             ("cut2", b"\xc3"), ("cut3a", b"\xe2"), ("cut3b", b"\xe2\x82"), ("cut4a", b"\xf0"), ("cut4b", b"\xf0\x9f"),
+             ("cut4c", b"\xf0\x9f\x98"), ("cut-tail", b"ab\xe2\x82"),
+             ("bad-ff", b"\xff"), ("bad-overlong", b"\xc0\x80"), ("bad-surrogate", b"\xed\xa0\x80"),
+             ("bad-range", b"\xf4\x90\x80\x80"), ("bad-cont", b"\xe2\x28\xa1")]
+    for name, p in texts:
+        n = len(p)
+        shapes = [("one", [(1, p, True)]),
+                  ("e+p", [(1, b"", False), (0, p, True)]),
+                  ("p+e", [(1, p, False), (0, b"", True)]),
+                  ("p+e+e", [(1, p, False), (0, b"", False), (0, b"", True)]),
+                  ("e+e+p", [(1, b"", False), (0, b"", False), (0, p, True)]),
+                  ("p+ping+e", [(1, p, False), (9, b"", True), (0, b"", True)])]
+        for k in sorted({1, n - 1} - {0, n}):
+            shapes.append((f"{k}|e|rest", [(1, p[:k], False), (0, b"", False), (0, p[k:], True)]))
+            shapes.append((f"{k}|rest|e", [(1, p[:k], False), (0, p[k:], False), (0, b"", True)]))
+        for sname, frs in shapes:
+            out.append((f"utf8-{name}-{sname}", b"".join(F(op, pl, fin=fin) for op, pl, fin in frs)))
     for n in (0, 1, 125, 126, 127, 65535):
         out.append((f"len16-{n}", F(2, b"", lenform=16, declared=n)))
     for n in (0, 125, 126, 65535, 65536, 65537, (1 << 63) - 1, 1 << 63, (1 << 64) - 1):
         out.append((f"len64-{n}", F(2, b"", lenform=64, declared=n)))
     return out
+
+
+def boundary_splits(label, stream, role):
+    n = len(stream)
+    res = [[stream], [stream[:2], stream[2:]]]
+    if label.startswith("boundary:utf8"):
+        last = n - (6 if role == "server" else 2)            # start of the final (possibly empty) frame
+        res.append([stream[k:k + 1] for k in range(n)])
+        res.append([stream[:max(last, 1)], b"", stream[max(last, 1):]])
+        res.append([stream, b""])
+    elif n <= 12:
+        res.append([stream[k:k + 1] for k in range(n)])
+    return res
 
 
 def splits_of(rng, stream, all_limit=40, extra=3):
@@ -301,12 +335,17 @@ def shrink_problem(case):
     return case
 
 
-def run_cases(ck, fw, cases, timeout=3000):
-    return ck.run_impl("ws_recv.py", {"fw": fw, "cases": cases}, nvx=False, timeout=timeout)["results"]
+def run_cases(ck, fw, cases, timeout=3000, nvx=False):
+    return ck.run_impl("ws_recv.py", {"fw": fw, "cases": cases}, nvx=nvx, timeout=timeout)["results"]
+
+
+KNOWN_FAMILIES = ("control-callback-after-violation", "processing-after-close-frame")
 
 
 def report_oracle_problems(ck, fw, case, res, probs):
     for key, what in probs:
+        if fw.endswith("/nvx") and not any(x in key for x in KNOWN_FAMILIES):
+            key = "nvx/" + key          # seen with the native validator / masker only: its own key
         ck.bump("oracle_problem:" + key)
         ck.violation(f"{key}", f"[{fw}] {what}", {"fw": fw, "case": case, "observed": res, "oracle": "rfc_judge"}, found_input=True)
 
@@ -330,8 +369,9 @@ def run(ck):
     ck.rule.append("(1) header sweep: first two octets h (all 65536 in thorough, a 4096-value stratified sample in quick) in "
                    "each of 64 receiver contexts (role x masking option x inside_message x compression x OPEN/CLOSING x failByDrop), "
                    "one fresh OPEN protocol per case, completed by zero octets; every such run is judged by the RFC oracle; the Gallina model "
-                   "re-evaluates the Twisted runs: quick = all sampled headers, thorough = all 65536 headers of the 32 contexts that start OPEN "
-                   "and the 4096-value sample of the 32 CLOSING contexts; (2) generated frame sequences (fragmented text/binary, "
+                   "re-evaluates the Twisted runs: quick = all sampled headers of the 32 contexts that start OPEN and the 2816-value boundary grid of the 32 "
+                   "CLOSING contexts; thorough = all 65536 headers of the OPEN contexts and the 4096-value sample of the CLOSING ones; the sequence "
+                   "stage runs with AUTOBAHN_USE_NVX=0 and =1 (oracle and model); (2) generated frame sequences (fragmented text/binary, "
                    "interleaved control frames, close) with one mutated field, fed whole, at every split position (<= 40 octets), octet "
                    "by octet and at random cuts, in both roles, both failure policies, both frameworks. non-trivial = the stream "
                    "reaches processData with >= 2 octets; distinct = distinct (context, stream, segmentation)")
@@ -358,7 +398,10 @@ def run(ck):
     rng = ck.rng("seq")
     nseq = 40 if quick else 400
     split_dependent = {}
-    for fw in FWS:
+    # the real default UTF-8 validator / masker is the native (NVX) one: the whole stage runs with AUTOBAHN_USE_NVX=0 and =1
+    seq_runs = [("tx", False), ("aio", False), ("tx", True)] + ([] if quick else [("aio", True)])
+    for fw0, nvx in seq_runs:
+        fw = fw0 + ("/nvx" if nvx else "")
         cases, meta = [], []
         for role in ("server", "client"):
             seqs = [("corpus", bytes.fromhex(c["stream"])) for c in corpus if c.get("role", role) == role]
@@ -377,12 +420,16 @@ def run(ck):
                         variants.append(dict(pmc=True))
                     for var in variants:
                         for chunks in (splits_of(rng, stream, extra=(2 if quick else 4)) if not label.startswith("boundary:")
-                                       else [[stream], [stream[:2], stream[2:]], [stream[k:k + 1] for k in range(len(stream))]][:(2 if len(stream) > 12 else 3)]):
+                                       else boundary_splits(label, stream, role)):
                             c = dict(BASE, role=role, fbd=fbd, chunks=[x.hex() for x in chunks], **var)
                             cases.append(c)
                             meta.append((role, fbd, label, si, json.dumps(var, sort_keys=True)))
+        if nvx and quick:
+            # quick: the deterministic streams (corpus, boundary tables) and a third of the generated ones
+            keep = [i for i, m in enumerate(meta) if m[2] == "corpus" or m[2].startswith("boundary:") or m[3] % 3 == 0]
+            cases, meta = [cases[i] for i in keep], [meta[i] for i in keep]
         ck.log(f"[{fw}] sequences: {len(cases)} implementation runs")
-        results = run_cases(ck, fw, cases)
+        results = run_cases(ck, fw0, cases, nvx=nvx)
         ck.evaluations += len(cases)
         ck.note_cases(0, (json.dumps([fw, c["role"], c["fbd"], c["closing"], c["utf8"], c["chunks"]]) for c in cases
                           if sum(len(x) for x in c["chunks"]) >= 4))
@@ -404,26 +451,11 @@ def run(ck):
                     ck.bump("split_dependent:" + str(m[1]))
                     if key not in split_dependent or len("".join(c["chunks"])) < len("".join(split_dependent[key][1]["chunks"])):
                         split_dependent[key] = (fw, c, r, whole_c, whole_r)
-        # the same streams through the native (NVX) UTF-8 validator and masker, judged by the RFC oracle only
-        # (the model mirrors the pure-Python validator: after a rejection the native one restarts, which is C09's finding)
-        if fw == "tx":
-            nrng = ck.rng("nvx")
-            pick = [i for i in range(len(cases)) if nrng.random() < (0.25 if quick else 0.5)]
-            try:
-                nres = ck.run_impl("ws_recv.py", {"fw": fw, "cases": [cases[i] for i in pick]}, nvx=True, timeout=3000)["results"]
-                ck.evaluations += len(pick)
-                ck.bump("nvx_runs", len(pick))
-                for i, r in zip(pick, nres):
-                    probs = ws_recv.check_against_rfc(cases[i], r)
-                    report_oracle_problems(ck, fw + "/nvx", cases[i], r, [("nvx/" + k if not any(x in k for x in
-                        ("control-callback-after-violation", "processing-after-close-frame")) else k, w) for k, w in probs])
-            except vlib.DriverCrash as e:
-                ck.violation("nvx/driver-crash", f"NVX run of the receive path crashed: {str(e)[-300:]}", {"progress": e.progress}, found_input=False)
         # model sample
         srng = ck.rng(f"sample/{fw}")
         idx = list(range(len(cases)))
         srng.shuffle(idx)
-        take = 500 if quick else 2500
+        take = (300 if nvx else 500) if quick else 2500
         for i in idx[:take]:
             if sum(len(x) for x in cases[i]["chunks"]) <= 1200:
                 model_cases.append((fw, cases[i], results[i]))
@@ -460,7 +492,7 @@ def run(ck):
                 if ctx["inside"]:
                     pre = [bytes.fromhex("01810000000061" if ctx["role"] == "server" else "010161")]
                 tbl = "[" + "; ".join("(%s, %s)" % (coq_events(o["events"]), coq_final(o)) for o in part["table"]) + "]"
-                runs = model_runs(part["runs"], None if (quick or not ctx["closing"]) else sample_hdrs)
+                runs = model_runs(part["runs"], None if not ctx["closing"] else (hdrs_small if quick else sample_hdrs))
                 sweep_terms.append("(%s, %d, [%s], %s, [%s])" % (coq_cfg(ctx), 1 if ctx["closing"] else 0,
                                    ";".join(nlist(x) for x in pre), tbl, "; ".join("(%d,%d,%d)" % t for t in runs)))
                 sweep_meta.append((fw, ctx))
@@ -489,7 +521,7 @@ def run(ck):
     for i in bad[:5]:
         fw, c, r = model_cases[i]
         vals = ck.coq_eval(IMPORTS, ["wsrecv_show " + terms[i]])
-        ck.violation(f"model-disagrees/seq/{c['role']}/fbd={c['fbd']}",
+        ck.violation(("nvx/" if fw.endswith("/nvx") else "") + f"model-disagrees/seq/{c['role']}/fbd={c['fbd']}",
                      f"[{fw}] Gallina model and implementation disagree: model {vals[0][:300]} vs observed {r['events']} {r['state']} {r['close']}",
                      {"fw": fw, "case": c, "observed": r, "model": vals[0], "correspondence": "wsrecv_case_ok"}, found_input=False)
     if broken:
@@ -505,7 +537,9 @@ def replay(path):
         print("no concrete case stored:", json.dumps(r)[:2000])
         return 1
     fw = r.get("fw", "tx")
-    res = run_cases(ck, fw, [case])[0]
+    fw, nvx = fw.split("/")[0], fw.endswith("/nvx")
+    print("framework     :", fw, "(native NVX validator/masker)" if nvx else "(pure Python validator/masker)")
+    res = run_cases(ck, fw, [case], nvx=nvx)[0]
     print("case          :", json.dumps(case))
     print("implementation:", json.dumps(res))
     stream = b"".join(bytes.fromhex(c) for c in case["chunks"])
@@ -515,7 +549,7 @@ def replay(path):
     probs = ws_recv.check_against_rfc(case, res)
     print("oracle verdict:", probs or "conforms")
     if "whole_case" in r:
-        res2 = run_cases(ck, fw, [r["whole_case"]])[0]
+        res2 = run_cases(ck, fw, [r["whole_case"]], nvx=nvx)[0]
         print("whole stream  :", json.dumps(res2))
         if canon_result(res2) != canon_result(res):
             probs.append(("split-dependent", "outcome depends on the segmentation"))
